@@ -580,6 +580,110 @@ def check_concat(col, p, psteps, q, qsteps):
 
 # ---------------------------------------------------------------------------
 
+def split_law_along_valid_paths(col, rng, n_targets):
+    """glom(t, Path(p, q)) == glom(glom(t, p), q) where the law has content: heterogeneous targets (dict -> object -> list -> dict with
+    the keys 1 and '1' -> tuple ...), valid paths obtained by walking them, every segment spelled as a plain part or as a T step, every
+    split point; plus the same with one failing segment appended (same error class either way).  Results compared by identity."""
+    from .. import gen
+
+    def part(rng, seg, node):
+        plain = rng.random() < 0.5
+        if isinstance(node, dict) or isinstance(node, (list, tuple)):
+            if plain:
+                if isinstance(node, (list, tuple)) and rng.random() < 0.5:
+                    return str(seg)
+                return seg
+            return T[seg]
+        if plain or not (isinstance(seg, str) and seg.isidentifier() and not seg.startswith('__')):
+            return seg
+        return getattr(T, seg)
+    fixed = [{'a': {'b': Obj(c=1, d=[{'1': 'text key', 1: 'int key'}, ('t0', 't1')])}, 'l': [[{'k': Obj(z={'w': 0})}]]},
+             Obj(a=Obj(b={'c': [10, 20]}), lst=[{'x': Obj(y=(1, 2))}])]
+    for i in range(n_targets + len(fixed)):
+        if i < len(fixed):
+            target = fixed[i]
+        else:
+            shared = []
+            target = gen.build(gen.gen_recipe(rng, rng.randint(2, 5), path_only_keys=rng.random() < 0.5, width=2, shared=shared), {}, shared)
+        stack, paths = [([], [target])], []
+        while stack and len(paths) < 60:
+            segs, nodes = stack.pop()
+            if len(segs) >= 5:
+                continue
+            for seg, child in (list(target.__dict__.items()) if isinstance(nodes[-1], Obj) and not segs and False else
+                               (list(nodes[-1].__dict__.items()) if isinstance(nodes[-1], Obj) else gen.children(nodes[-1]))):
+                item = (segs + [seg], nodes + [child])
+                paths.append(item)
+                stack.append(item)
+        for segs, nodes in paths:
+            if len(segs) < 2:
+                continue
+            for variant in range(2):
+                parts = [part(rng, sg, nd) for sg, nd in zip(segs, nodes)]
+                if variant == 1:
+                    parts.append(rng.choice(['zz_missing', 99, T['zz_missing'], T.zz_missing]))
+                whole = call(G, target, Path(*parts))
+                for k in range(1, len(parts)):
+                    pth, q = Path(*parts[:k]), Path(*parts[k:])
+                    first = call(G, target, pth)
+                    col.count('split_evaluations')
+                    col.count('split_evaluations_along_valid_paths')
+                    col.case(('valid-split', tuple(type(n).__name__ for n in nodes[:4]), tuple(type(x).__name__ for x in parts), k, variant), True)
+                    if not first.ok:
+                        col.violation('C18/path-split-evaluation-differs:valid-prefix-fails', 'glom(t, %r) raised %r on %s although the segments were '
+                                      'obtained by walking t' % (pth, first.exc, short(target)), None)
+                        break
+                    second = call(G, first.value, q)
+                    joined = call(G, target, Path(pth, q))
+                    for name, got in (('Path(*parts)', whole), ('Path(p, q)', joined)):
+                        if got.ok != second.ok or (got.ok and got.value is not second.value):
+                            col.violation('C18/path-split-evaluation-differs:heterogeneous-target',
+                                          'p=%r q=%r t=%s: glom(t, %s) = %r but glom(glom(t, p), q) = %r' % (pth, q, short(target), name, got, second), None)
+                            break
+                        if not got.ok and type(got.exc).__name__ != type(second.exc).__name__:
+                            col.violation('C18/path-split-error-class-differs', 'p=%r q=%r: glom(t, %s) raised %r, glom(glom(t, p), q) raised %r'
+                                          % (pth, q, name, got.exc, second.exc), None)
+                            break
+
+
+def near_misses_are_not_equal(col, rng, n):
+    """== agrees with the tuple of steps: an expression that differs from p in ONE place - one more positional argument, one more
+    keyword, one more element of a tuple index / tuple part, one argument replaced - is not equal to p (and p is not a prefix of it
+    unless it is), while a rebuilt copy is"""
+    def variants(x):
+        ops = x.__ops__
+        for i in range(1, len(ops), 2):
+            op, arg = ops[i], ops[i + 1]
+            alts = []
+            if op == '(':
+                a, kw = arg
+                alts = [(a + (1,), kw), (a + (None,), kw), (a, dict(kw, extra=1)), (a[:-1], kw) if a else None,
+                        ((a[0],) + a, kw) if a else None, (a, {k: v for k, v in list(kw.items())[:-1]}) if kw else None]
+            elif isinstance(arg, tuple) and not any(isinstance(e, type(T)) for e in arg):
+                alts = [arg + (1,), arg + (None,), arg[:-1] if arg else None, arg + arg if arg else None]
+            elif op in ('[', 'P') and not isinstance(arg, type(T)):
+                alts = [(arg,), (arg, arg)] if not isinstance(arg, (slice, list, dict, set)) else []
+            for alt in alts:
+                if alt is None or alt == arg:
+                    continue
+                y = type(T)()
+                y.__ops__ = ops[:i + 1] + (alt,) + ops[i + 2:]
+                yield i // 2, op, y
+    for _ in range(n):
+        x, _, _ = gen_t(rng, T, rng.randint(1, 4), 1, False)
+        forms = [('T', x, lambda y: y), ('Path', Path(x), lambda y: Path(y))]
+        for fname, px, wrap in forms:
+            for k, op, y in variants(x):
+                py = wrap(y)
+                col.count('near_miss_comparisons')
+                col.case(('near-miss', fname, op, k), True)
+                eq, ne = call(lambda: px == py), call(lambda: px != py)
+                if not eq.ok or eq.value is not False or not ne.ok or ne.value is not True:
+                    col.violation('C18/path-eq-near-miss-true:%s' % {'(': 'call-arguments', '[': 'tuple-index', 'P': 'tuple-part'}.get(op, op),
+                                  '%r == %r gave %r (!= gave %r): step %d differs' % (px, py, eq, ne, k), None)
+                    break
+
+
 def systematic(col, rng):
     """every literal kind alone under each root and position"""
     lits = []
@@ -631,6 +735,10 @@ def run(ctx):
     col.require('pickle_roundtrips', 50)
     if ctx.shard == 0:
         systematic(col, rng)
+    split_law_along_valid_paths(col, rng, ctx.n(25, 150))
+    col.require('split_evaluations_along_valid_paths', 500)
+    near_misses_are_not_equal(col, rng, ctx.n(400, 3000))
+    col.require('near_miss_comparisons', 300)
     for i in range(ctx.n(700, 12000)):
         root = rng.choice([T, T, T, S, A])
         n = rng.randint(1, 6)
